@@ -4,6 +4,7 @@ package main
 import (
 	"fmt"
 	"net/url"
+	"sort"
 	"strconv"
 	"strings"
 
@@ -344,7 +345,8 @@ func run(r *vk.Runner) {
 		"bare-arrays":  {`[`, `]`},
 		"bare-objects": {`{"zz":`, `}`},
 	}
-	for name, p := range paths {
+	for _, name := range sortedKeys(paths) {
+		p := paths[name]
 		for _, d := range depths {
 			for _, closed := range []bool{true, false} {
 				name, p, d, closed := name, p, d, closed
@@ -363,7 +365,7 @@ func run(r *vk.Runner) {
 	}
 	for _, d := range []int{10, 1000, 100000} {
 		d := d
-		for name, doc := range map[string]string{
+		huge := map[string]string{
 			"digits":        `{"s":` + strings.Repeat("9", d) + `}`,
 			"quoted-digits": `{"s":"` + strings.Repeat("9", d) + `"}`,
 			"long-key":      `{"` + strings.Repeat("k", d) + `":1}`,
@@ -371,8 +373,9 @@ func run(r *vk.Runner) {
 			"escapes":       `{"s":"` + strings.Repeat(`\u0000`, d) + `"}`,
 			"many-keys":     `{` + strings.Repeat(`"s":"x",`, d) + `"s":"y"}`,
 			"many-elements": `{"a":[` + strings.Repeat(`{},`, d) + `{}]}`,
-		} {
-			name, doc := name, doc
+		}
+		for _, name := range sortedKeys(huge) {
+			name, doc := name, huge[name]
 			r.Do(fmt.Sprintf("huge:%s:%d", name, d), func(t *vk.T) {
 				t.Coord("huge|" + name)
 				t.SigCoord("json")
@@ -381,4 +384,13 @@ func run(r *vk.Runner) {
 			})
 		}
 	}
+}
+
+func sortedKeys[V any](m map[string]V) []string {
+	var ks []string
+	for k := range m {
+		ks = append(ks, k)
+	}
+	sort.Strings(ks)
+	return ks
 }
